@@ -54,5 +54,15 @@ PairsComplementary == \A i \in DOMAIN Facts.pairs : Facts.pairs[i].pos = Facts.p
 
 \* subsets that sit on the edge of some gate: a needed module is held open by exactly one enabled feature
 Barely == \E m \in Needed(S) : Gate(m) # {} /\ Cardinality(Gate(m) \cap S) = 1
+\* Where a disabled trait can be named.  The name is looked up at the type level by the entry point and at the variant /
+\* field level by each enabled handler's own attribute scan, so the refusal has to be observed per handler (the enabled
+\* trait whose handler does the scan), per position and per shape -- including the shapes a handler special-cases
+\* (a struct with exactly one field, a tuple struct, a union).
+DisabledSites ==
+  { [pos |-> p, shape |-> sh] : p \in {"type", "variant", "field"},
+                                 sh \in {"struct1_named", "struct1_tuple", "struct2_named", "enum1_named", "enum1_tuple", "enum2", "union1"} } 
+ValidSite(x) == (x.pos = "variant" => x.shape \in {"enum1_named", "enum1_tuple", "enum2"})
+ASSUME PrintT(<<"DSITES", ToJson({ x \in DisabledSites : ValidSite(x) })>>)
+
 EmitBoundary == Barely => PrintT(<<"BOUNDARY", ToJson([s |-> [f \in Features |-> f \in S]])>>)
 =============================================================================
